@@ -336,14 +336,14 @@ impl<B: StarkField> Trace for GenTrace<B> {
 // PROVER
 // ------------------------------------------------------------------------------------------------
 
-pub struct GenProver<B: StarkField, H: ElementHasher> {
+pub struct GenProver<B: StarkField, H: ElementHasher, R = DefaultRandomCoin<H>> {
     pub options: ProofOptions,
     /// optional perturbation of the aux trace: (column, row) gets +1 (used by the corruption engines)
     pub aux_corrupt: Option<(usize, usize)>,
-    _p: PhantomData<(B, H)>,
+    _p: PhantomData<(B, H, R)>,
 }
 
-impl<B: StarkField, H: ElementHasher> GenProver<B, H> {
+impl<B: StarkField, H: ElementHasher, R> GenProver<B, H, R> {
     pub fn new(options: ProofOptions) -> Self {
         GenProver { options, aux_corrupt: None, _p: PhantomData }
     }
@@ -367,17 +367,18 @@ pub fn build_aux<B: StarkField, E: FieldElement<BaseField = B>>(
     cols
 }
 
-impl<B, H> Prover for GenProver<B, H>
+impl<B, H, R> Prover for GenProver<B, H, R>
 where
     B: StarkField + ExtensibleField<2> + ExtensibleField<3> + 'static,
     H: ElementHasher<BaseField = B> + Sync,
+    R: winterfell::crypto::RandomCoin<BaseField = B, Hasher = H>,
 {
     type BaseField = B;
     type Air = GenAir<B>;
     type Trace = GenTrace<B>;
     type HashFn = H;
     type VC = MerkleTree<H>;
-    type RandomCoin = DefaultRandomCoin<H>;
+    type RandomCoin = R;
     type TraceLde<E: FieldElement<BaseField = B>> = DefaultTraceLde<E, H, MerkleTree<H>>;
     type ConstraintCommitment<E: FieldElement<BaseField = B>> = DefaultConstraintCommitment<E, H, MerkleTree<H>>;
     type ConstraintEvaluator<'a, E: FieldElement<BaseField = B>> = DefaultConstraintEvaluator<'a, GenAir<B>, E>;
